@@ -563,6 +563,39 @@ def run(ctx):
             ctx.undec('R-MASKDEFPARSE', 'parse', wmv, 'parse outside the evaluated fragment for %r' % unk)
         else:
             ctx.ok('R-MASKDEFPARSE', 'parse', wmv, '5 definitions (0, 1, 2 arguments) split into type and complete argument text')
+    # ---------------- R-MASKTMPL: the expression templates mask_vals evaluates refer only to names that exist there, and keep the mask
+    import builtins as _bi
+    ctx.rule('R-MASKTMPL', 'mask_vals: every name in an evaluated expression template is bound where it is evaluated; no template strips the mask the variable already carries')
+    modf = ctx.src.mod(FUNCS)
+    bound = set(a.arg for a in mvf.args.args) | set(n_.id for n_ in ast.walk(mvf) if isinstance(n_, ast.Name) and isinstance(n_.ctx, ast.Store)) | \
+        set(modf.imports) | set(modf.assigns) | set(modf.functions) | set(dir(_bi))
+    ntm = 0
+    for st in iter_stmts(mvf.body):
+        if not (isinstance(st, ast.Assign) and isinstance(st.targets[0], ast.Name)):
+            continue
+        v_ = st.value
+        tmpl = const_str(v_) if const_str(v_) is not None else (const_str(v_.left) if isinstance(v_, ast.BinOp) and isinstance(v_.op, ast.Mod) else None)
+        if tmpl is None or 'masked_' not in tmpl:
+            continue
+        ntm += 1
+        text = tmpl.replace('masked_%s', 'masked_X').replace('%s', '0')
+        try:
+            tree = ast.parse(text, mode='eval')
+        except SyntaxError:
+            ctx.undec('R-MASKTMPL', norm(st)[:40], wmv, 'template is not an expression after substitution: %s' % text[:50])
+            continue
+        free = sorted(set(n_.id for n_ in ast.walk(tree) if isinstance(n_, ast.Name)) - bound)
+        dm = drops_mask(tree.body)
+        if free:
+            ctx.violation(Finding('R-MASKTMPL', FUNCS, 'mask_vals', st, 'the evaluated template %r refers to %s, which is bound nowhere in mask_vals: the evaluation raises NameError for every variable, the '
+                                  'error is swallowed as a warning and nothing is masked' % (tmpl[:60], free)), oid=tmpl[:30])
+        elif dm is not None:
+            ctx.violation(Finding('R-MASKTMPL', FUNCS, 'mask_vals', st, 'the evaluated template %r passes the values through %s, which strips the mask the variable already carries: cells masked by an '
+                                  'earlier step come back unmasked' % (tmpl[:60], norm(dm)[:40])), oid=tmpl[:30])
+        else:
+            ctx.ok('R-MASKTMPL', tmpl[:40], wmv, 'names bound, no mask-dropping conversion')
+    if ntm < 2:
+        raise AnalysisError('R-MASKTMPL: %d expression templates found in mask_vals (2 confirmed by reading)' % ntm)
     # ---------------- R-WHEREAPPLY: which variables a positional mask applies to (finite case analysis of the condition)
     from .. import consteval
     ctx.rule('R-WHEREAPPLY', 'mask(where=): applied to a variable iff the mask is tied to exactly its dimensions, or is untied and has exactly its shape')
